@@ -69,8 +69,20 @@ def mask(nb, ignored):
     return nb
 
 
-def configure(ignored, form):
-    """install the ignore set through one of the three user-visible ways"""
+def _metadata_keys(nbs):
+    nbk, cellk, outk = set(), set(), set()
+    for nb in nbs:
+        nbk |= set(nb.get('metadata', {}))
+        for c in nb.get('cells', []):
+            cellk |= set(c.get('metadata', {}))
+            for o in c.get('outputs', []):
+                outk |= set(o.get('metadata', {}))
+    return sorted(nbk), sorted(cellk), sorted(outk)
+
+
+def configure(ignored, form, nbs=()):
+    """install the ignore set through one of the user-visible ways: negative flags, positive flags, an Ignore mapping with whole-path
+    entries, or an Ignore mapping that hides metadata through key lists naming every metadata key that occurs (`keylist`)"""
     from nbdime.diffing import notebooks as nbd
     from nbdime import args as nargs
     nbd.reset_notebook_differ()
@@ -96,7 +108,12 @@ def configure(ignored, form):
         mapping['/cells/*/attachments'] = True
         mapping.setdefault('/cells/*', [])
         mapping['/cells/*'] = list(mapping['/cells/*']) + ['attachments']
-    if 'metadata' in ignored:
+    if 'metadata' in ignored and form == 'keylist':
+        nbk, cellk, outk = _metadata_keys(nbs)
+        mapping['/metadata'] = nbk
+        mapping['/cells/*/metadata'] = cellk
+        mapping['/cells/*/outputs/*/metadata'] = outk
+    elif 'metadata' in ignored:
         mapping['/metadata'] = True
         mapping['/cells/*/metadata'] = True
         mapping['/cells/*/outputs/*/metadata'] = True
@@ -114,7 +131,7 @@ def check_pair(a, b, ignored, form):
     from nbdime.patching import patch_notebook
     from bounded import nbspace
     out = []
-    how = configure(ignored, form)
+    how = configure(ignored, form, (a, b))
     try:
         d = nbd.diff_notebooks(a, b)
         pd = nbspace.to_plain(d)
@@ -146,7 +163,7 @@ def _job(job):
     out, cnt, keys, sample = [], 0, set(), None
     subsets = [frozenset(c for c, bit in zip(CATS, bits) if bit) for bits in itertools.product([0, 1], repeat=6)]
     cat_ops = {'outputs': ['outputs_clear', 'outputs_append', 'outputs_change'], 'attachments': ['attachments'],
-               'metadata': ['metadata_flag', 'metadata_tags', 'nb_metadata', 'output_metadata', 'falsy_swap'],
+               'metadata': ['metadata_flag', 'metadata_tags', 'nb_metadata', 'output_metadata', 'falsy_swap', 'nested_named_keys'],
                'details': ['execution_count'], 'sources': ['source_line_add', 'source_line_change']}
     pairs = list(nbspace.pairs(seed, n, max_edits=3))
     for pi, (a, b) in enumerate(pairs):
@@ -170,7 +187,7 @@ def _job(job):
                 bb = b
             if nbspace.validate_strict(bb):
                 continue
-            for form in ('negative', 'positive', 'mapping'):
+            for form in ('negative', 'positive', 'mapping', 'keylist'):
                 cnt += 1
                 keys.add(hash((nbspace.canon(a), nbspace.canon(bb), ignored, form)))
                 fails = check_pair(a, bb, ignored, form)
